@@ -208,11 +208,43 @@ def run(cx):
         for alt in state:
             cs = conds(alt)
             ok = ("from_low == from_high", False) in cs or ("from_high == from_low", False) in cs or ("from_low != from_high", True) in cs or ("from_high - from_low == 0", False) in cs
-            r.check(ok, "map/zero-span-guard-dominates-division", (utils, st), "division by (from_high - from_low) is reachable with a zero-width source range")
+            # any other spelling of the guard (a test over both bounds that left the raising branch) is accepted here: what
+            # it refuses is decided by the evaluation grid below
+            ok = ok or any("from_low" in t_ and "from_high" in t_ for t_, _v in cs)
+            r.check(ok, "map/zero-span-guard-dominates-division", (utils, st), "division by (from_high - from_low) is reachable without any test of the source range")
     guards = [n for n in walk_local(mp) if isinstance(n, ast.If) and "from_low" in norm(n.test) and "from_high" in norm(n.test) and any(isinstance(x, ast.Raise) for x in n.body)]
     for g in guards:
         rz = [x for x in g.body if isinstance(x, ast.Raise)]
         r.check(bool(rz) and dotted(rz[0].exc.func if isinstance(rz[0].exc, ast.Call) else rz[0].exc) == "ValueError", "map/zero-span-ValueError", (utils, g), "zero-width range must raise ValueError")
+
+    # the same two clauses decided by evaluating map() (checker's interpreter) over a grid that includes reversed, negative,
+    # huge-but-narrow and tiny source ranges: refused exactly when the range has zero width, affine otherwise
+    from fractions import Fraction
+    spans = [(0, 1023), (1023, 0), (-1, 1), (5, 5), (0.5, 0.5), (2000000000, 2000000002), (2000000000, 2000000000), (0, 1e-12), (1e9, 1e9 + 0.25), (-3.5, -3.5), (1e-9, 2e-9)]
+    n_bad = 0
+    for lo_, hi_ in spans:
+        for val_ in (lo_, hi_, (lo_ + hi_) / 2, lo_ - 1):
+            for tl_, th_ in ((0, 255), (255, 0), (-1.0, 1.0)):
+                try:
+                    out = dl.Interp(utils).call(mp, [val_, lo_, hi_, tl_, th_])
+                except dl.Unsupported as e:
+                    raise AnalysisError(f"Utils.map left the evaluable subset: {e}")
+                if lo_ == hi_:
+                    good = out.kind == "raise" and out.value == "ValueError"
+                    why = "a zero-width source range must be refused with ValueError"
+                else:
+                    exact = Fraction(tl_) + (Fraction(val_) - Fraction(lo_)) * (Fraction(th_) - Fraction(tl_)) / (Fraction(hi_) - Fraction(lo_))
+                    good = out.kind == "return" and isinstance(out.value, (int, float)) and abs(Fraction(out.value) - exact) <= max(Fraction(1, 10 ** 6), abs(exact) / 10 ** 6)
+                    why = f"the range has non-zero width: the affine value is {float(exact)!r}"
+                if good:
+                    r.ok(None)
+                else:
+                    n_bad += 1
+                    if n_bad <= 3:
+                        r.fail("map/refuses-exactly-zero-width-else-affine", (utils, mp), f"map({val_!r}, {lo_!r}, {hi_!r}, {tl_!r}, {th_!r}) -> {out!r}; {why}", detail={"args": [val_, lo_, hi_, tl_, th_]})
+                    else:
+                        r.stat.obligations += 1
+                        r.stat.failed += 1
 
     # ---- C20-SLEEP ---------------------------------------------------------------------------
     r = cx.rule("C20-SLEEP", "sleep(ms) raises ValueError for negatives before anything else and otherwise calls the sleeper exactly once, with ms/1000", floor=4)
